@@ -79,6 +79,25 @@ func runC04(c *Ctx) {
 	// the move is legal in the position last set up only if that position is what the command said:
 	// Engine.Move plays exactly the generated move the text denotes (rule of C19, re-decided here)
 	c.guard("R04-engines", func() { r.WithAlias("R19-move", "R04-engines", func() { c19Move(c) }) })
+	// "legal in the position last set up" presupposes that the engine's game *is* the position last set up: the
+	// position arm commits a command line only when every move was applied, forgets it when a move fails, resets
+	// on a non-continuation, and decodes every FEN field (rules of C10, re-decided here)
+	r.Rule("R04-position", "the game the engine answers for is the one the last position command describes: the remembered line is committed only after all moves were applied and forgotten when one fails, a non-continuation resets first, continuations are recognised at token boundaries, every FEN field is decoded, and no move is refused on account of the game result (rules of C10)", 10)
+	c.guard("R04-position", func() {
+		wrap := func(f func()) {
+			g := f
+			for _, n := range []string{"R10-engine", "R10-move"} {
+				name, inner := n, g
+				g = func() { r.WithAlias(name, "-", inner) }
+			}
+			for _, n := range []string{"R10-owner", "R10-commit", "R10-fresh", "R10-tokens", "R10-prefix", "R10-decode", "R10-accept"} {
+				name, inner := n, g
+				g = func() { r.WithAlias(name, "R04-position", inner) }
+			}
+			g()
+		}
+		wrap(func() { runC10(c) })
+	})
 }
 
 func isBestmoveSend(s *ssa.Send) (isBest, isNull bool) {
@@ -87,6 +106,134 @@ func isBestmoveSend(s *ssa.Send) (isBest, isNull bool) {
 		return false, false
 	}
 	return true, strings.Contains(e, "bestmove 0000")
+}
+
+type bestmoveProducer struct {
+	*ssa.Call
+	null bool
+}
+
+// bestmoveProducers: the calls that make the 'bestmove ...' texts a sent value can be - through range elements of a
+// slice, slice literals, phis and the results of helpers of the package.
+func bestmoveProducers(v ssa.Value, pkg *ssa.Package, depth int, seen map[ssa.Value]bool) []bestmoveProducer {
+	v = stripConv(v)
+	if v == nil || seen[v] || depth > 6 {
+		return nil
+	}
+	seen[v] = true
+	var res []bestmoveProducer
+	switch x := v.(type) {
+	case *ssa.Call:
+		cal := x.Call.StaticCallee()
+		if cal == nil {
+			return nil
+		}
+		if cal.String() == "fmt.Sprintf" && len(x.Call.Args) > 0 {
+			if f, ok := constString(x.Call.Args[0]); ok && strings.HasPrefix(f, "bestmove") {
+				return []bestmoveProducer{{x, strings.HasPrefix(f, "bestmove 0000")}}
+			}
+			return nil
+		}
+		if cal.Blocks != nil && cal.Pkg == pkg {
+			for _, b := range cal.Blocks {
+				if ret, ok := b.Instrs[len(b.Instrs)-1].(*ssa.Return); ok {
+					for _, rv := range ret.Results {
+						res = append(res, bestmoveProducers(rv, pkg, depth+1, seen)...)
+					}
+				}
+			}
+		}
+	case *ssa.Phi:
+		for _, e := range x.Edges {
+			res = append(res, bestmoveProducers(e, pkg, depth+1, seen)...)
+		}
+	case *ssa.UnOp:
+		if x.Op != token.MUL {
+			return nil
+		}
+		switch a := x.X.(type) {
+		case *ssa.IndexAddr:
+			res = append(res, bestmoveProducers(a.X, pkg, depth+1, seen)...)
+		case *ssa.Alloc:
+			for _, ref := range *a.Referrers() {
+				if st, ok := ref.(*ssa.Store); ok && st.Addr == ssa.Value(a) {
+					res = append(res, bestmoveProducers(st.Val, pkg, depth+1, seen)...)
+				}
+			}
+		}
+	case *ssa.Slice:
+		res = append(res, bestmoveProducers(x.X, pkg, depth+1, seen)...)
+	case *ssa.Alloc:
+		// the backing array of a slice literal: what is stored into its elements
+		for _, ref := range *x.Referrers() {
+			if ia, ok := ref.(*ssa.IndexAddr); ok {
+				for _, r2 := range *ia.Referrers() {
+					if st, ok := r2.(*ssa.Store); ok && st.Addr == ssa.Value(ia) {
+						res = append(res, bestmoveProducers(st.Val, pkg, depth+1, seen)...)
+					}
+				}
+			}
+		}
+	case *ssa.Extract:
+		res = append(res, bestmoveProducers(x.Tuple, pkg, depth+1, seen)...)
+	case *ssa.Next:
+		res = append(res, bestmoveProducers(x.Iter, pkg, depth+1, seen)...)
+	case *ssa.Range:
+		res = append(res, bestmoveProducers(x.X, pkg, depth+1, seen)...)
+	}
+	return res
+}
+
+// dominatedByClaim: the block (of the completion function, or of an emit helper only it calls) lies past the true
+// edge of the claim.
+func dominatedByClaim(b *ssa.BasicBlock, fn, sc *ssa.Function, emitSites map[*ssa.Function][]*ssa.BasicBlock, cas ssa.Value) bool {
+	starts := []*ssa.BasicBlock{b}
+	if fn != sc {
+		starts = emitSites[fn]
+	}
+	if len(starts) == 0 {
+		return false
+	}
+	for _, start := range starts {
+		one := false
+		for cur := start; cur != nil; {
+			dd := cur.Idom()
+			if dd == nil {
+				break
+			}
+			if ifi, ok := dd.Instrs[len(dd.Instrs)-1].(*ssa.If); ok && cas != nil && ifi.Cond == cas && onEdge(dd, 0, cur) {
+				one = true
+			}
+			cur = dd
+		}
+		if !one {
+			return false
+		}
+	}
+	return true
+}
+
+// emptyPVGuard: the block is reached under a test of len(pv.Moves) against zero; pol is true on the non-empty side.
+func emptyPVGuard(b *ssa.BasicBlock) (found, pol bool) {
+	for cur := b; cur != nil; {
+		dd := cur.Idom()
+		if dd == nil {
+			break
+		}
+		if ifi, ok := dd.Instrs[len(dd.Instrs)-1].(*ssa.If); ok {
+			onTrue := onEdge(dd, 0, cur)
+			if bo, ok := ifi.Cond.(*ssa.BinOp); ok && strings.HasPrefix(pathExpr(bo.X), "len(") && strings.Contains(pathExpr(bo.X), ".Moves") {
+				if k, ok := constInt(bo.Y); ok && k == 0 && (bo.Op == token.GTR || bo.Op == token.NEQ) {
+					found, pol = true, onTrue
+				}
+				if k, ok := constInt(bo.Y); ok && k == 0 && bo.Op == token.EQL {
+					found, pol = true, !onTrue
+				}
+			}
+		}
+		cur = dd
+	}
+	return
 }
 
 func c04Single(c *Ctx, d *driverModel) {
@@ -158,6 +305,28 @@ func c04Single(c *Ctx, d *driverModel) {
 				}
 				best, null := isBestmoveSend(s)
 				if !best {
+					// the lines of the answer produced by a helper and sent one by one: every send of a value that
+					// goes back to a 'bestmove ...' text is an emission, judged for the claim at the send and for
+					// the empty-PV branch at the place the text is produced
+					for _, pr := range bestmoveProducers(s.X, sc.Pkg, 0, map[ssa.Value]bool{}) {
+						n++
+						if fn != sc {
+							if _, ok := emitSites[fn]; !ok {
+								elsewhere = append(elsewhere, c.P.FuncName(fn)+" at "+c.pos(s.Pos()))
+								continue
+							}
+						}
+						if !dominatedByClaim(b, fn, sc, emitSites, cas) {
+							guarded = false
+						}
+						lg, lp := emptyPVGuard(pr.Block())
+						if pr.null && lg && !lp {
+							nullOK = true
+						}
+						if !pr.null && lg && lp {
+							firstOK = true
+						}
+					}
 					continue
 				}
 				n++
